@@ -112,7 +112,8 @@ theorem pause_spec {c : Cfg} (hc : CfgOK c) {t0 : Nat} (ho : ordered c = true) {
     obtain ⟨lg, pk, sc, ib, e, hsub, _⟩ := hst
     rw [e]
     refine ⟨Or.inr ⟨hph, ⟨⟨hgt.idle.running, hgt.idle.jobs, hgt.idle.jobsSet, hgt.idle.callId_le,
-        fun i hi => hgt.idle.parked_lt i (hsub.subset hi), hgt.idle.parked_nodup.sublist hsub⟩,
+        fun i hi => hgt.idle.parked_lt i (hsub.subset hi), hgt.idle.parked_nodup.sublist hsub,
+        Or.inr (fun i hi => hgt.stale i (hsub.subset hi))⟩,
       ⟨hgt.clean.running, hgt.clean.jobs, hgt.clean.jobsSet, hgt.clean.calling⟩, hgt.noexc, hgt.rem, hgt.nodup,
       hgt.hung, hgt.noiter, fun i hi => hgt.stale i (hsub.subset hi)⟩, hft⟩, ?_⟩
     intro _
@@ -348,13 +349,13 @@ theorem getResult_srcPos (s : St) (i : Nat) : (getResult s i).1.srcPos = s.srcPo
   · split <;> rfl
 
 theorem abort_srcPos (c : Cfg) (s : St) : (abort c s).srcPos = s.srcPos := by
-  obtain ⟨lg, pk, h, _⟩ := abort_eq c s; rw [h]
+  obtain ⟨lg, pk, sc, ib, h, _, _⟩ := abort_eq c s; rw [h]
 
 theorem finallyBlock_srcPos (s : St) : (finallyBlock s).1.srcPos = s.srcPos := by
   obtain ⟨lg, h⟩ := finallyBlock_eq s; rw [h]
 
 theorem handleException_srcPos (c : Cfg) (s : St) : (handleException c s).srcPos = s.srcPos := by
-  obtain ⟨lg, pk, h, _⟩ := handleException_eq c s; rw [h]
+  obtain ⟨lg, pk, sc, ib, h, _, _⟩ := handleException_eq c s; rw [h]
 
 /-- `dispatch_one_batch` called from a callback moves the input position only inside its locked region. -/
 theorem dispatchOneCb_srcPos (c : Cfg) (s : St) :
@@ -405,6 +406,31 @@ theorem genClose_inactive (c : Cfg) (s : St) {g : Gen} (h : g.phase = .tail ∨ 
     genClose c s g = (s, { g with phase := .done }) := by
   unfold genClose
   rcases h with h | h <;> rw [h]
+
+/-! ### leaving the `with` block while the generator is alive (`Parallel.__exit__`, consumer op 6) -/
+
+/-- What `__exit__` changes: `managed`, `calling`, the abort flags, and the backend's bookkeeping (completions that
+arrive inside `abort_everything` are no-ops). In particular `running`, the job queues, the tracker table, the input
+position and the look-ahead queue are untouched. In a generator mode with the call still in progress (`calling`) the
+object is aborting afterwards. -/
+theorem exitBlock_eq (c : Cfg) (s : St) : ∃ lg pk sc ib ab abd,
+    exitBlock c s = { s with log := lg, parked := pk, sched := sc, inCb := ib, managed := false, calling := false, aborting := ab, aborted := abd } ∧
+    pk.Sublist s.parked ∧ sc.length ≤ s.sched.length ∧ (s.aborting = true → ab = true) ∧
+    (isGen c = true → s.calling = true → ab = true) := by
+  unfold exitBlock
+  dsimp only
+  by_cases hg : (isGen c && s.calling) = true
+  · rw [if_pos hg]
+    obtain ⟨lg1, pk, sc, ib, h1, hpk, hsc⟩ := abort_eq c { s with managed := false }
+    obtain ⟨lg2, h2⟩ := terminateAndReset_eq (abort c { s with managed := false })
+    rw [h2, h1]
+    exact ⟨_, pk, sc, ib, true, true, rfl, hpk, hsc, fun _ => rfl, fun _ _ => rfl⟩
+  · rw [if_neg hg]
+    obtain ⟨lg2, h2⟩ := terminateAndReset_eq { s with managed := false }
+    rw [h2]
+    refine ⟨_, s.parked, s.sched, s.inCb, s.aborting, s.aborted, rfl, List.Sublist.refl _, Nat.le_refl _,
+      fun h => h, fun h1 h2 => ?_⟩
+    simp [h1, h2] at hg
 
 /-! ### a failing batch -/
 
